@@ -191,11 +191,17 @@ Fixpoint subst_loop (ms : list string) (cur : string) : M string :=
   end.
 Definition substituteCommands (input : string) : M string := subst_loop (ticker_matches input) input.
 
-(* ---- parser.go:22 parseSchedules ------------------------------------------------------------------ *)
+(* ---- parser.go:20 parseCron (fix 519d0a6): a spec that is a time zone prefix only - the input on which
+   the cron library slices out of range - is rejected before the library is called ------------------- *)
+Definition tz_only (s : string) : bool :=
+  (prefixb "TZ=" s || prefixb "CRON_TZ=" s) && negb (contains_char c_space s).
+Definition parseCron (s : string) : cronv := if tz_only s then CronErr else cron s.
+
+(* ---- parser.go:33 parseSchedules ------------------------------------------------------------------ *)
 Fixpoint parseSchedules (values : list string) : res (list string) :=
   match values with
   | [] => Ok []
-  | v :: r => match cron v with
+  | v :: r => match parseCron v with
               | CronPanic => Panic
               | CronErr => Err
               | CronOk => rest <~ parseSchedules r ;; Ok (v :: rest)
@@ -210,10 +216,10 @@ Fixpoint strings_of (l : list yv) : option (list string) :=
   | _ :: _ => None
   end.
 
-(* parser.go:54 parseScheduleMap.  The Go code ranges over a map: the entries arrive in some order; the
+(* parser.go:65 parseScheduleMap.  The Go code ranges over a map: the entries arrive in some order; the
    model takes them in the order of the list (theorems quantify over all lists, the correspondence tries
-   the permutations). `targets` is a nil *[]string for an unknown key: appending through it is a nil
-   dereference, reached only when the entry has at least one value. *)
+   the permutations).  A key other than start / stop / restart is an error (fix c2912bd; before it
+   `targets` stayed a nil *[]string and appending through it was a nil dereference). *)
 Inductive skey := KStart | KStop | KRestart | KUnknown.
 Definition skey_of (s : string) : skey :=
   if String.eqb s "start" then KStart else if String.eqb s "stop" then KStop
@@ -224,7 +230,7 @@ Fixpoint sched_values_loop (k : skey) (vals : list string) (acc : list string * 
   match vals with
   | [] => Ok acc
   | v :: r =>
-      match cron v with
+      match parseCron v with
       | CronPanic => Panic
       | CronErr => Err
       | CronOk =>
@@ -233,7 +239,7 @@ Fixpoint sched_values_loop (k : skey) (vals : list string) (acc : list string * 
           | KStart => sched_values_loop k r (a ++ [v], b, c)
           | KStop => sched_values_loop k r (a, b ++ [v], c)
           | KRestart => sched_values_loop k r (a, b, c ++ [v])
-          | KUnknown => Panic                                   (* *targets with targets == nil *)
+          | KUnknown => Err                                     (* not reached: rejected by the caller *)
           end
       end
   end.
@@ -250,7 +256,11 @@ Fixpoint parseScheduleMap (m : list (yv * yv)) (acc : list string * list string 
                  | VList l => match strings_of l with Some x => Ok x | None => Err end
                  | _ => Ok []
                  end) with
-          | Ok vals => acc' <~ sched_values_loop (skey_of key) vals acc ;; parseScheduleMap r acc'
+          | Ok vals =>
+              match skey_of key with
+              | KUnknown => Err                                  (* errInvalidScheduleKey *)
+              | k => acc' <~ sched_values_loop k vals acc ;; parseScheduleMap r acc'
+              end
           | Err => Err
           | Panic => Panic
           end
@@ -339,7 +349,7 @@ Fixpoint param_subst_loop (ms : list string) (cur : string) (failed : bool) : M 
   | m :: rest =>
       fun e =>
         (let cmdStr := expand_env e (trim_char c_btick m) in
-         out <- exec_cmd cmdStr ;;
+         out <- exec_cmd ("sh -c " +++ cmdStr) ;;                          (* exec.Command("sh", "-c", cmdStr) *)
          match out with
          | None => param_subst_loop rest cur true
          | Some o => param_subst_loop rest (replace_all m o cur) failed
@@ -380,7 +390,7 @@ Fixpoint parseParams_loop (eval noEval : bool) (i : nat) (ps : list (string * st
         (let value := if eval then expand_env e v0 else v0 in
          let strParam := stringifyParam (name, value) in
          let positional := if is_empty name then value else strParam in
-         u_ <- setenv (string_of_nat i) positional ;;                        (* parser.go:134: unconditional *)
+         u_ <- (if noEval then ret tt else setenv (string_of_nat i) positional) ;;   (* parser.go:150 (fix a55d876) *)
          if negb noEval && negb (is_empty name) then
            u_ <- setenv name value ;;
            parseParams_loop eval noEval (S i) r (ret_ ++ [strParam]) (envs ++ [strParam])
@@ -397,9 +407,10 @@ Definition buildParams (d : definition) (o : opts) : M (string * list string * l
   pe <- parseParams params (negb (o_noEval o)) o ;;
   ret (d_params d, fst pe, snd pe).
 
-(* ---- builder.go:259 buildLogDir: substitutes commands whatever the options say -------------------- *)
-Definition buildLogDir (d : definition) : M string :=
-  fun e => substituteCommands (expand_env e (d_logDir d)) e.
+(* ---- builder.go:262 buildLogDir: expanded always, commands substituted only when evaluating (fix 4348d0d) *)
+Definition buildLogDir (d : definition) (o : opts) : M string :=
+  fun e => if o_noEval o then ret (expand_env e (d_logDir d)) e
+           else substituteCommands (expand_env e (d_logDir d)) e.
 
 (* ---- builder.go:746 buildConditions: v.Condition on a nil element ---------------------------------- *)
 Fixpoint buildConditions (cs : list (option conditionDef)) : res (list condition) :=
@@ -546,7 +557,12 @@ Definition parseSignal (s : option string) : res string :=
   | Some sg => if sig_ok sg then Ok sg else Err
   end.
 
-(* ---- builder.go:459 buildStep ------------------------------------------------------------------------- *)
+(* what "runnable" asks of a step: a name and something to execute *)
+Definition step_executable (s : step) : bool :=
+  negb (is_empty (st_command s)) || negb (is_empty (st_cmdWithArgs s)) || negb (is_empty (st_execType s)) ||
+  (match st_subWorkflow s with Some _ => true | None => false end).
+
+(* ---- builder.go:467 buildStep; its last test (fix aac42fa): the step must end up with something to execute *)
 Definition buildStep (variables : list string) (od : option stepDef) (fns : list (option funcDef)) : res step :=
   u_ <~ assertStepDef od fns ;;
   match od with
@@ -563,7 +579,8 @@ Definition buildStep (variables : list string) (od : option stepDef) (fns : list
       let '(cwa, cmd, args) := c3 in
       let sub := negb (is_empty (sd_run def)) in                 (* parseSubWorkflow *)
       sg <~ parseSignal (sd_signalOnStop def) ;;
-      Ok {| st_name := sd_name def; st_description := sd_description def; st_script := sd_script def;
+      let s :=
+         {| st_name := sd_name def; st_description := sd_description def; st_script := sd_script def;
             st_stdout := sd_stdout def; st_stderr := sd_stderr def; st_output := sd_output def; st_dir := sd_dir def;
             st_variables := variables; st_depends := sd_depends def; st_mailOnError := sd_mailOnError def;
             st_preconditions := conds;
@@ -577,7 +594,8 @@ Definition buildStep (variables : list string) (od : option stepDef) (fns : list
             st_retryPolicy := match sd_retryPolicy def with Some r => Some (rt_limit r, rt_intervalSec r) | None => None end;
             st_repeatPolicy := match sd_repeatPolicy def with Some r => (rp_repeat r, rp_intervalSec r) | None => (false, 0%Z) end;
             st_signalOnStop := sg;
-            st_fromCall := match sd_call def with Some _ => true | None => false end |}
+            st_fromCall := match sd_call def with Some _ => true | None => false end |} in
+      if step_executable s then Ok s else Err                       (* errStepCommandIsEmpty *)
   end.
 
 (* builder.go:401 buildSteps *)
@@ -669,7 +687,7 @@ Definition build (o : opts) (d : definition) (base : list string) : M dag :=
     end
   else
     r_steps <- try_ (lift (buildSteps vars (d_steps d) (d_functions d))) ;;
-    r_log <- try_ (buildLogDir d) ;;
+    r_log <- try_ (buildLogDir d o) ;;
     r_hs <- try_ (lift (buildHandlers vars (d_handlerOn d) (d_functions d))) ;;
     r_smtp <- try_ (buildSMTPConfig d) ;;
     (* buildErrMailConfig / buildInfoMailConfig cannot fail *)
@@ -683,12 +701,13 @@ Definition build (o : opts) (d : definition) (base : list string) : M dag :=
 
 (* ---- condition.go:33 evalCondition, patternutil.go:35 MatchPatternScanner ---------------------------- *)
 (* the condition is evaluated first (a failing command returns an error before any pattern is compiled);
-   an expected value with the `re:` prefix is compiled, and a compile error is logged through the nil
-   logger of the options: a nil dereference *)
+   an expected value with the `re:` prefix is compiled; a compile error is logged (through the default
+   logger since fix 089471d; before it through a nil logger: a nil dereference) and the pattern is
+   dropped, so nothing can match *)
 Definition evalCondition (c : condition) : M bool :=
   fun e =>
     (actual <- substituteCommands (expand_env e (cond_condition c)) ;;
-     if prefixb "re:" (cond_expected c) && negb (re_ok (cond_expected c)) then lift Panic
+     if prefixb "re:" (cond_expected c) && negb (re_ok (cond_expected c)) then ret false
      else ret (cond_met actual (cond_expected c))) e.
 
 Fixpoint evalConditions (cs : list condition) : M bool :=
@@ -726,12 +745,21 @@ Definition json_ok (g : dag) : bool :=
    httpErr.Error() on a nil *httpError *)
 Definition serve_status (g : dag) : res unit := if json_ok g then Ok tt else Panic.
 
-(* what "runnable" asks of a step: a name and something to execute *)
-Definition step_executable (s : step) : bool :=
-  negb (is_empty (st_command s)) || negb (is_empty (st_cmdWithArgs s)) || negb (is_empty (st_execType s)) ||
-  (match st_subWorkflow s with Some _ => true | None => false end).
 Definition all_steps (g : dag) : list step :=
   g_steps g ++ flat_map (fun o => match o with Some s => [s] | None => [] end)
                         [g_onExit g; g_onSuccess g; g_onFailure g; g_onCancel g].
 Definition all_conditions (g : dag) : list condition :=
   g_preconditions g ++ flat_map st_preconditions (all_steps g).
+
+(* ---- definition.go assertNoNullElements (fix c021988), called by decode: no null element in steps,
+   functions or any preconditions list ------------------------------------------------------------------- *)
+Definition is_some {A} (o : option A) : bool := match o with Some _ => true | None => false end.
+Definition conds_ok (cs : list (option conditionDef)) : bool := forallb is_some cs.
+Definition stepdef_ok (sd : stepDef) : bool := conds_ok (sd_preconditions sd).
+Definition ostep_ok (o : option stepDef) : bool := match o with Some sd => stepdef_ok sd | None => false end.
+Definition handler_ok (o : option stepDef) : bool := match o with Some sd => stepdef_ok sd | None => true end.
+Definition handlers_ok (h : handlerOnDef) : bool :=
+  handler_ok (h_exit h) && handler_ok (h_success h) && handler_ok (h_failure h) && handler_ok (h_cancel h).
+Definition no_nil (d : definition) : bool :=
+  forallb ostep_ok (d_steps d) && forallb is_some (d_functions d) && conds_ok (d_preconditions d) &&
+  handlers_ok (d_handlerOn d).
